@@ -72,6 +72,9 @@ class Program:
         self.closures = {}      # closure type text -> Function
         self.promoted = {}      # canonical name -> Function
         self.consts = {}
+        self.statics = dict(re.findall(r'^(alloc\d+) \(static: ([A-Za-z_0-9:]+),', text, re.M))      # allocation id -> static item name
+        # integer initialisers of atomics: `static NAME: Atomic<u64> = { ... Atomic::<u64>::new(const N_u64) ... }`
+        self.static_init = {m.group(1).split('::')[-1]: int(m.group(2)) for m in re.finditer(r'^static ([A-Za-z_0-9:]+): [^\n]*= \{\n(?:(?!^\}).*\n)*?.*?::new\(const (\d+)_u(?:8|16|32|64|size)\)', text, re.M)}
         self.enums = {}         # enum name -> [ [variant names], ... ] (several defs possible)
         self.enum_discr = {}    # (enum, variant) -> explicit discriminant
         self.structs = {}       # struct name -> [field names]
